@@ -119,11 +119,11 @@ type hxFailRS struct {
 
 func (r *hxFailRS) Read(p []byte) (int, error) {
 	if r.mode == 1 {
-		return 0, hxProdErr
+		return 0, hxProdFail()
 	}
 	if r.off >= len(r.data) {
 		if r.mode == 2 {
-			return 0, hxProdErr
+			return 0, hxProdFail()
 		}
 		return 0, io.EOF
 	}
@@ -158,6 +158,12 @@ func HarnessC12Producer() {
 	fe := hxEnc(svPick("fenc", 3))
 	victim := svPick("victim", n)
 	mode := 1 + svPick("mode", 2)
+	hxProdErrKind = 0
+	if victim < p {
+		// the failing producer is a body writer: what error value it returns is up
+		// to the caller (file producers are readers, whose io.EOF means "done")
+		hxProdErrKind = svPick("producer-error-kind", svParam("errkinds", len(hxProdErrNames)))
+	}
 	m := NewMsg(WithEncoding(me))
 	_ = m.From("a@b.c")
 	_ = m.To("d@e.f")
@@ -172,11 +178,11 @@ func HarnessC12Producer() {
 		}
 		wf := func(w io.Writer) (int64, error) {
 			if fail == 1 {
-				return 0, hxProdErr
+				return 0, hxProdFail()
 			}
 			k, err := w.Write([]byte(text))
 			if fail == 2 {
-				return int64(k), hxProdErr
+				return int64(k), hxProdFail()
 			}
 			return int64(k), err
 		}
